@@ -234,13 +234,23 @@ pub fn run(ctx: &Ctx) -> Report {
                 if cfg!(miri) && (k + di) % 5 != 0 {
                     continue;
                 }
-                for persistent in [false, true] {
-                    let case = format!("c12:t{}:h{}:{}:d{}:k{}:{}", t, hi, wname, di, k, if persistent { "persistent" } else { "oneshot" });
+                let is_flush = matches!(golden_ops.get(k), Some((_, Op::Flush)));
+                for mode in 0..3u8 {
+                    // mode 2: a flush that keeps failing with ErrorKind::Interrupted (a persistent
+                    // failure whatever its kind: the call must not report success)
+                    if mode == 2 && !is_flush {
+                        continue;
+                    }
+                    let persistent = mode >= 1;
+                    let case = format!("c12:t{}:h{}:{}:d{}:k{}:{}", t, hi, wname, di, k, ["oneshot", "persistent", "persistent-interrupted-flush"][mode as usize]);
                     if !ctx.want(&case) {
                         continue;
                     }
                     let dests = [Dest::new(), Dest::new(), Dest::new()];
-                    dests[di].0.borrow_mut().fault = crate::iomon::FaultPlan { at: Some(k), persistent };
+                    dests[di].0.borrow_mut().fault = crate::iomon::FaultPlan { at: Some(k), persistent, interrupted_flush: mode == 2 };
+                    if mode == 2 {
+                        rep.count("interrupted_flush_faults", 1);
+                    }
                     let run = execute(&hist, &shapes, &dests, complete);
                     rep.eval();
                     rep.nontrivial(&case);
